@@ -81,6 +81,60 @@ func VerifC02Bounded(window, pre, n, arrivals, rereg int) {
 	verif_reach("C02.bounded.ok")
 }
 
+// VerifC02TwoSenders: two sender devices (of two members) in one group, both registered at the receiver at counter 0; each
+// seals n messages; `arrivals` arrivals are each a FREE choice among the 2n envelopes. The window formula holds per
+// sender: the state kept for one sender is not disturbed by the other's messages, and each message opens to its payload.
+func VerifC02TwoSenders(window, n, arrivals int) {
+	ctx := verif_background()
+	s1 := verifNewStore("snd1", window)
+	s2 := verifNewStore("snd2", window)
+	rcv := verifNewStore("rcv", window)
+	g := verifGroup(s1, rcv, 3)
+	gpk, err := g.GetPubKey()
+	verif_assume(err == nil)
+	_, rcvMD := verifLink(ctx, s1, rcv, g)
+	verifLink(ctx, s2, rcv, g)
+	snds := []*secretStore{s1, s2}
+	total := 2 * n
+	envs := make([][]byte, total)
+	plains := make([][]byte, total)
+	for i := 0; i < total; i++ {
+		plains[i] = verif_anyBytesNonNil("plain")
+		pay, _ := proto.Marshal(&protocoltypes.EncryptedMessage{Plaintext: plains[i]})
+		e, err := snds[i%2].SealEnvelope(ctx, g, pay) // sender i%2, its counter is i/2+1
+		verif_assume(err == nil)
+		envs[i] = e
+	}
+	opened := make([]bool, total)
+	var nOpened [2]uint64
+	for a := 0; a < arrivals; a++ {
+		i := verif_anyInt("arrival")
+		verif_assume(i >= 0 && i < total)
+		who := i % 2
+		k := uint64(i/2 + 1)
+		e, h, err := rcv.OpenEnvelopeHeaders(envs[i], g)
+		verif_assert(err == nil && h.Counter == k, "C02.two: headers open and carry the sender's counter")
+		if err != nil {
+			return
+		}
+		msg, err := rcv.OpenEnvelopePayload(ctx, e, h, gpk, rcvMD.Device(), verif_cidN(i))
+		want := opened[i] || k <= uint64(window)+nOpened[who]
+		if want {
+			verif_assert(err == nil, "C02.two: a message inside its sender's window (or already opened) opens, whatever the other sender did")
+		} else {
+			verif_assert(err != nil, "C02.two: a message outside its sender's window does not open")
+		}
+		if err == nil {
+			verif_assert(verif_bytesEq(msg.Plaintext, plains[i]), "C02.two: every successful open returns the original payload")
+			if !opened[i] {
+				opened[i] = true
+				nOpened[who]++
+			}
+		}
+	}
+	verif_reach("C02.two.ok")
+}
+
 func VerifC02Witness() {
 	ctx := verif_background()
 	snd := verifNewStore("snd", 1)
